@@ -342,6 +342,9 @@ func validateFields(transportDD *datadictionary.DataDictionary,
 ) MessageRejectError {
 	for _, field := range message.fields {
 		switch {
+		case field.tag == tagMsgType:
+			// validateMsgType has checked MsgType against the messages of the application dictionary;
+			// the enumeration of the transport dictionary need not list application message types.
 		case field.tag.IsHeader():
 			if err := validateField(transportDD, settings, transportDD.Header.Tags, field); err != nil {
 				return err
